@@ -69,6 +69,10 @@ let () =
   port "link_destination" (fun r -> wr_str (link_destination (rd_str r)));
   port "normalize_title_quotes" (fun r -> wr_str (normalize_title_quotes (rd_str r)));
   port "strip_backslash" (fun r -> wr_str (strip_backslash (rd_str r)));
+  port "read_atx" (fun r -> wr_opt (fun (n, c) -> wr_int (int_of_nat n); wr_str c) (read_atx (rd_str r)));
+  port "escape_closing_hashes" (fun r -> wr_str (escape_closing_hashes (rd_str r)));
+  port "read_row" (fun r -> wr_opt wr_strs (read_row (rd_str r)));
+  port "read_ol_marker" (fun r -> wr_opt (fun (n, w) -> wr_n n; wr_int (int_of_nat w)) (read_ol_marker (rd_str r)));
   port "escape_backslashes" (fun r -> wr_str (escape_backslashes (rd_str r)));
   port "wrap_words" (fun r ->
     let md = rd_bool r in let w = rd_z r in let c0 = rd_z r in let c1 = rd_z r in
